@@ -1,6 +1,6 @@
 (* Driver.v — single entry point [run_line] evaluated by the extracted OCaml
    driver and, on a slice of every correspondence run, by vm_compute in Coq. *)
-From RK Require Import Base Proto DrvC13 DrvC12 DrvC14 DrvC19.
+From RK Require Import Base Proto DrvC13 DrvC12 DrvC14 DrvC19 DrvC17.
 
 Definition run_line (l : bytes) : bytes :=
   match fields l with
@@ -11,6 +11,8 @@ Definition run_line (l : bytes) : bytes :=
       else if beq kind (s2b "pcur") then run_pcur args
       else if beq kind (s2b "bn") then run_bn args
       else if beq kind (s2b "store") then run_store args
+      else if beq kind (s2b "descr") then run_descr args
+      else if beq kind (s2b "descrd") then run_descrd args
       else if beq kind (s2b "res") then run_res args
       else if beq kind (s2b "p5") then run_p5 args
       else if beq kind (s2b "rds") then run_rds args
